@@ -353,6 +353,7 @@ func (ww *conversionVisitor) visitEnumNode(node *sourcewalk.EnumNode) {
 
 		eb.desc.Options = &descriptorpb.EnumOptions{}
 		proto.SetExtension(eb.desc.Options, ext_j5pb.E_Enum, ext)
+		ww.file.ensureImport(j5ExtImport)
 	}
 
 	optionsToSet := node.Schema.Options
@@ -363,6 +364,14 @@ func (ww *conversionVisitor) visitEnumNode(node *sourcewalk.EnumNode) {
 
 	for idx, value := range optionsToSet {
 		eb.addValue(int32(idx+1), value)
+	}
+
+	for _, value := range node.Schema.Options {
+		if len(value.Info) > 0 {
+			// the option carries (j5.ext.v1.enum_value)
+			ww.file.ensureImport(j5ExtImport)
+			break
+		}
 	}
 
 	ww.parentContext.addEnum(eb)
